@@ -60,6 +60,18 @@ def skeletons(tier):
     S["const_pin_expr"] = HDR + MON + 'LED_PIN = 10 + 3\nwhile True:\n    led = Led(LED_PIN)\n    led.on()\n    led.off()\n'
     S["const_pin_expr_before"] = HDR + MON + 'P = 4 + 5\nled = Led(P)\nwhile True:\n    led.toggle()\n'
     S["main_continue"] = HDR + MON + 'n = 0\nwhile True:\n    n += 1\n    if n == 2:\n        continue\n    mon.write(n)\n'
+    # the same name bound in the prologue and again at the top of the loop body, to other pins; and two names
+    for dev, d1, d2, use in (
+            ("led", "Led(12)", "Led(13)", "x.on()\n    sleep(2)\n    x.off()\n"),
+            ("rgb", "RGBLed(3, 5, 6)", "RGBLed(9, 10, 11)", "x.set_color(1, 2, 3)\n    x.off()\n"),
+            ("servo", "Servo(9)", "Servo(10)", "x.write(45)\n"),
+            ("motor", "DCMotor(4, 7, 11)", "DCMotor(2, 3, 5)", "x.set_speed(1.0)\n    x.coast()\n"),
+            ("pot", 'Potentiometer("A2")', 'Potentiometer("A3")', "mon.write(x.read())\n"),
+            ("button", "Button(2)", "Button(4)", 'if x.is_pressed():\n        mon.write("p")\n')):
+        pro_use = use.replace("\n    ", "\n")
+        S[f"rebind_{dev}"] = HDR + MON + f"x = {d1}\n" + pro_use + f"while True:\n    x = {d2}\n    " + use
+        S[f"rebind_same_{dev}"] = HDR + MON + f"x = {d1}\n" + pro_use + f"while True:\n    x = {d1}\n    " + use
+        S[f"two_names_{dev}"] = HDR + MON + f"y = {d1}\n" + pro_use.replace("x.", "y.") + f"while True:\n    x = {d2}\n    " + use
     S["helper_then_loop"] = HDR + MON + 'def tick(k):\n    mon.write(k)\n    return k + 1\nc = tick(0)\nwhile True:\n    c = tick(c)\n'
     return S
 
@@ -73,6 +85,19 @@ BREAK_CASES = {
     "break_under_if_in_try": 'while True:\n    try:\n        v = analog_read("A0")\n        if v > 1:\n            break\n    except:\n        mon.write(2)\n',
     "break_nested_if": 'while True:\n    v = analog_read("A0")\n    if v > 5:\n        if v > 9:\n            break\n',
 }
+def _ctx_break_cases():
+    """`break` directly under every block context that is not a script-level inner loop: must be rejected."""
+    from .. import skeletons as sk
+    out = {}
+    for cname, tmpl in sk.CTX_LOOP.items():
+        if cname in sk.CTX_INNER_LOOP:
+            continue
+        body = sk._fill(tmpl, "mon.write(1)\nbreak\n")
+        out[f"break_ctx_{cname}"] = 'while True:\n    a = analog_read("A0") - 512\n    b = analog_read("A1") - 512\n' + sk._ind(body)
+    return out
+
+
+BREAK_CASES.update(_ctx_break_cases())
 NESTED_BREAK_OK = {
     "break_in_for": 'while True:\n    for i in range(3):\n        if i == 1:\n            break\n        mon.write(i)\n',
     "break_in_while": 'while True:\n    n = 0\n    while n < 3:\n        n += 1\n        break\n    mon.write(n)\n',
@@ -91,6 +116,11 @@ def monitor(events, dev, host_events=None):
         for p in m:
             motor_pins[p] = m
     button_pins = {int(b.pin) for b in dev.buttons}
+    # a button object no script name refers to any more (its name was re-bound) need not be sampled - but never twice
+    live_buttons = getattr(dev, "live_button_pins", button_pins)
+
+    def bad_count(p, n):
+        return n != 1 if p in live_buttons else n > 1
     in_pass = False
     pass_events = 0
     pass_button_reads = {}
@@ -100,7 +130,7 @@ def monitor(events, dev, host_events=None):
         if k == "marker":
             if in_pass:
                 for p in button_pins:
-                    if pass_button_reads.get(p, 0) != 1:
+                    if bad_count(p, pass_button_reads.get(p, 0)):
                         problems.append(f"button pin {p} sampled {pass_button_reads.get(p, 0)} times in a pass")
             in_pass = ev[1] == "loop"
             pass_events = 0
@@ -146,7 +176,7 @@ def monitor(events, dev, host_events=None):
             pass_events += 1
     if in_pass:
         for p in button_pins:
-            if pass_button_reads.get(p, 0) != 1:
+            if bad_count(p, pass_button_reads.get(p, 0)):
                 problems.append(f"button pin {p} sampled {pass_button_reads.get(p, 0)} times in a pass")
     return problems
 
@@ -187,6 +217,11 @@ def run(tier, seed, only=None):
         items.append(("parse", f"break/{name}", HDR + MON + body, True))
     for name, body in NESTED_BREAK_OK.items():
         items.append(("diff", f"break/{name}/N=2", HDR + MON + body, 2, kw))
+    # values persist between passes whatever block the update sits in
+    from .. import skeletons as sk
+    for oid, src in sk.ctx_family(tier, stmts=("aug_global", "const_bump", "str_reassign", "range_name", "swap", "list_swap",
+                                               "append", "remove_dup", "new_zero", "led_toggle", "continue")):
+        items.append(("diff", "persist/" + oid[4:] + "/N=3", src, 3, kw))
     if only:
         items = [i for i in items if only in i[1]]
     results = run_obligations(items, _work)
@@ -197,7 +232,10 @@ def run(tier, seed, only=None):
                     "firmware trace must equal CPython's trace (prologue once, body once per pass, values persist); (ii) "
                     "temporal monitors run over the raw firmware trace of every feasible path (configure-before-use, no "
                     "re-configuration to another mode, Serial.begin/attach/safe-stop first; injected button sampling exactly "
-                    "once per pass and before user events); (iii) `break` that would leave the main loop must be rejected.",
+                    "once per pass and before user events); (iii) `break` that would leave the main loop must be rejected, "
+                    "under every block context that is not an inner loop; (iv) persist/*: state-carrying statements in every "
+                    "block context over three passes; rebind_*/two_names_*: a device name bound in the prologue and again at "
+                    "the top of the loop body (other pins / same pins / another name).",
         functions_encoded=FUNCTIONS + ["emit() pass 1 (hoisted configuration) and pass 2 as lowered IR", "parser break guard"],
         bounds={"passes": list(passes_list), "skeletons": len(items)},
         assumptions=ASSUMPTIONS + ["monitors are evaluated on concrete event kinds/pins of each feasible path (pins are "
